@@ -362,6 +362,9 @@ func (ex *Exec) pushWork(alt Decision, m Model) {
 	copy(pre, ex.journal[:ex.jpos])
 	pre[ex.jpos] = alt
 	ex.res.newWork = append(ex.res.newWork, workItem{pre, m})
+	if forkProfile {
+		ex.prog.noteFork(ex.where())
+	}
 }
 
 func (ex *Exec) record(d Decision) {
